@@ -20,6 +20,8 @@ ValueOps ==
   { [f |-> "wval",   col |-> "a", p |-> [f |-> "ge", a |-> 5]],
     [f |-> "wval",   col |-> "b", p |-> [f |-> "true", a |-> 0]],
     [f |-> "wval",   col |-> "nope", p |-> [f |-> "ge", a |-> 5]],
+    [f |-> "wval",   col |-> "big", p |-> [f |-> "true", a |-> 0]],     \* WithValue on a bitmap index: membership as a value
+    [f |-> "wval",   col |-> "small", p |-> [f |-> "false", a |-> 0]],
     [f |-> "wint",   col |-> "a", p |-> [f |-> "lt", a |-> 3]],
     [f |-> "wuint",  col |-> "a", p |-> [f |-> "ge", a |-> 5]],
     [f |-> "wfloat", col |-> "a", p |-> [f |-> "ge", a |-> 2]],
